@@ -10,7 +10,11 @@ fn settings(g: &mut Sm, focus: &str) -> String {
             (0, 5), (5, 0), (0, 0), (1, 1), (2, 1), (3, 2), (7, 7), (10, 3), (999, 1000), (1000, 1000),
             (1001, 1000), (2500, 1000), (3000, 7), (60, 5), (400, 20), (2000, 100),
         ],
-        "C18" | "C19" | "C05" => &[
+        "C05" => &[
+            (5000, 1000), (3000, 7), (10, 3), (2500, 1000), (400, 20), (2000, 100), (3000, 2), (2200, 1),
+            (1000, 1000), (600, 15),
+        ],
+        "C18" | "C19" => &[
             (5000, 1000), (3000, 7), (10, 3), (2500, 1000), (400, 20), (2000, 100), (10000, 1000), (4000, 100),
             (1000, 1000), (600, 15),
         ],
@@ -29,8 +33,9 @@ fn settings(g: &mut Sm, focus: &str) -> String {
         0 => None,
         _ => Some(*g.pick(&[0., 1e-3, 0.1, 0.01, 1e-5])),
     };
-    let kt_ratio: Option<f64> = match g.below(3) {
-        0 => Some(*g.pick(&[0., 0.1, 0.5, 1., 0.9, 0.01])),
+    let kt_ratio: Option<f64> = match (g.below(3), focus) {
+        (0, "C05") | (1, "C05") => Some(*g.pick(&[0., 0.1, 0.5, 1., 0.9, 0.01, 1.5, 2., -1., -0.5, -3., 1.0000001])),
+        (0, _) => Some(*g.pick(&[0., 0.1, 0.5, 1., 0.9, 0.01])),
         _ => None,
     };
     let max_step = match focus {
